@@ -280,3 +280,108 @@ pub proof fn thm_c10_repeatable(comps: Components, w: Seq<Factor>, k_exp: f32, a
     }
     thm_ep(comps, comps, w, k_exp, area, area2, lm, r, r2, idx, 1real, 1real);
 }
+
+// ------------------------------------------------------------------------------------------------ per-m2 figures (C04 / C11)
+pub proof fn lemma_m2_field(kx: real, ky: real, ct: real, v: real, v2: real, q: real)
+    requires kx != 0real, v2 == ct * v, q == (ct * ky) / kx,
+    ensures rmul(ky, v2) == q * rmul(kx, v), rmul(v2, ky) == q * rmul(v, kx),
+{
+    assert(ky * (ct * v) == ((ct * ky) / kx) * (kx * v) && (ct * v) * ky == ((ct * ky) / kx) * (v * kx)) by(nonlinear_arith) requires kx != 0real;
+}
+pub proof fn lemma_mscaled_mval<K>(m0: Map<K, f32>, m1: Map<K, f32>, k: real, key: K)
+    requires mscaled(m0, m1, k),
+    ensures mval(m1, key) == rmul(mval(m0, key), k),
+{
+    assert(m1.contains_key(key) == m0.contains_key(key));
+    if !m0.contains_key(key) { lemma_mul0(k); }
+}
+pub proof fn lemma_m3scaled_mval(m0: Map<Service, RenNrenCo2>, m1: Map<Service, RenNrenCo2>, k: real, key: Service)
+    requires m3scaled(m0, m1, k),
+    ensures mval3(m1, key) == r3k(k, mval3(m0, key)),
+{
+    assert(m1.contains_key(key) == m0.contains_key(key));
+    if !m0.contains_key(key) { lemma_mul0(k); }
+}
+/// per-m2 figures of two evaluations whose absolute figures are related by ct: related by ct * (1/area2) / (1/area)
+pub proof fn thm_m2(bx: Balance, by: Balance, area: f32, area2: f32, mx: Balance, my: Balance, ct: real, q: real)
+    requires bal_rel(bx, by, ct), nba_ok(bx, area, mx), nba_ok(by, area2, my), rv(area) != 0real, q == (ct * k_of(area2)) / k_of(area),
+    ensures bal_rel(mx, my, q),
+{
+    let kx = k_of(area); let ky = k_of(area2);
+    assert(kx != 0real) by(nonlinear_arith) requires kx == 1real / rv(area), rv(area) != 0real;
+    lemma_m2_field(kx, ky, ct, rv(bx.used.epus), rv(by.used.epus), q);
+    lemma_m2_field(kx, ky, ct, rv(bx.used.nepus), rv(by.used.nepus), q);
+    lemma_m2_field(kx, ky, ct, rv(bx.used.cgnus), rv(by.used.cgnus), q);
+    lemma_m2_field(kx, ky, ct, rv(bx.prod.an), rv(by.prod.an), q);
+    lemma_m2_field(kx, ky, ct, rv(bx.del.an), rv(by.del.an), q);
+    lemma_m2_field(kx, ky, ct, rv(bx.del.onst), rv(by.del.onst), q);
+    lemma_m2_field(kx, ky, ct, rv(bx.del.grid), rv(by.del.grid), q);
+    lemma_m2_field(kx, ky, ct, rv(bx.exp.an), rv(by.exp.an), q);
+    lemma_m2_field(kx, ky, ct, rv(bx.exp.nepus), rv(by.exp.nepus), q);
+    lemma_m2_field(kx, ky, ct, rv(bx.exp.grid), rv(by.exp.grid), q);
+    lemma_m2_r3(kx, ky, ct, r3v(bx.we.a), r3v(by.we.a), q);
+    lemma_m2_r3(kx, ky, ct, r3v(bx.we.b), r3v(by.we.b), q);
+    lemma_m2_r3(kx, ky, ct, r3v(bx.we.del), r3v(by.we.del), q);
+    lemma_m2_r3(kx, ky, ct, r3v(bx.we.exp_a), r3v(by.we.exp_a), q);
+    lemma_m2_r3(kx, ky, ct, r3v(bx.we.exp), r3v(by.we.exp), q);
+    assert forall|s: Service| #[trigger] mval(my.used.epus_by_srv@, s) == q * mval(mx.used.epus_by_srv@, s) by {
+        lemma_mscaled_mval(bx.used.epus_by_srv@, mx.used.epus_by_srv@, kx, s); lemma_mscaled_mval(by.used.epus_by_srv@, my.used.epus_by_srv@, ky, s);
+        assert(mval(by.used.epus_by_srv@, s) == ct * mval(bx.used.epus_by_srv@, s));
+        lemma_m2_field(kx, ky, ct, mval(bx.used.epus_by_srv@, s), mval(by.used.epus_by_srv@, s), q);
+    }
+    assert forall|s: Service| #[trigger] mval3(my.we.a_by_srv@, s) == r3s(q, mval3(mx.we.a_by_srv@, s)) by {
+        lemma_m3scaled_mval(bx.we.a_by_srv@, mx.we.a_by_srv@, kx, s); lemma_m3scaled_mval(by.we.a_by_srv@, my.we.a_by_srv@, ky, s);
+        assert(mval3(by.we.a_by_srv@, s) == r3s(ct, mval3(bx.we.a_by_srv@, s)));
+        lemma_m2_r3(kx, ky, ct, mval3(bx.we.a_by_srv@, s), mval3(by.we.a_by_srv@, s), q);
+    }
+    assert forall|s: Service| #[trigger] mval3(my.we.b_by_srv@, s) == r3s(q, mval3(mx.we.b_by_srv@, s)) by {
+        lemma_m3scaled_mval(bx.we.b_by_srv@, mx.we.b_by_srv@, kx, s); lemma_m3scaled_mval(by.we.b_by_srv@, my.we.b_by_srv@, ky, s);
+        assert(mval3(by.we.b_by_srv@, s) == r3s(ct, mval3(bx.we.b_by_srv@, s)));
+        lemma_m2_r3(kx, ky, ct, mval3(bx.we.b_by_srv@, s), mval3(by.we.b_by_srv@, s), q);
+    }
+    assert forall|s: ProdSource| #[trigger] mval(my.prod.by_src@, s) == q * mval(mx.prod.by_src@, s) by {
+        lemma_mscaled_mval(bx.prod.by_src@, mx.prod.by_src@, kx, s); lemma_mscaled_mval(by.prod.by_src@, my.prod.by_src@, ky, s);
+        assert(mval(by.prod.by_src@, s) == ct * mval(bx.prod.by_src@, s));
+        lemma_m2_field(kx, ky, ct, mval(bx.prod.by_src@, s), mval(by.prod.by_src@, s), q);
+    }
+    assert forall|s: ProdSource| #[trigger] mval(my.prod.epus_by_src@, s) == q * mval(mx.prod.epus_by_src@, s) by {
+        lemma_mscaled_mval(bx.prod.epus_by_src@, mx.prod.epus_by_src@, kx, s); lemma_mscaled_mval(by.prod.epus_by_src@, my.prod.epus_by_src@, ky, s);
+        assert(mval(by.prod.epus_by_src@, s) == ct * mval(bx.prod.epus_by_src@, s));
+        lemma_m2_field(kx, ky, ct, mval(bx.prod.epus_by_src@, s), mval(by.prod.epus_by_src@, s), q);
+    }
+    assert forall|c: Carrier| #[trigger] mval(my.prod.by_cr@, c) == q * mval(mx.prod.by_cr@, c) by {
+        lemma_mscaled_mval(bx.prod.by_cr@, mx.prod.by_cr@, kx, c); lemma_mscaled_mval(by.prod.by_cr@, my.prod.by_cr@, ky, c);
+        assert(mval(by.prod.by_cr@, c) == ct * mval(bx.prod.by_cr@, c));
+        lemma_m2_field(kx, ky, ct, mval(bx.prod.by_cr@, c), mval(by.prod.by_cr@, c), q);
+    }
+    assert forall|c: Carrier| #[trigger] mval(my.del.grid_by_cr@, c) == q * mval(mx.del.grid_by_cr@, c) by {
+        lemma_mscaled_mval(bx.del.grid_by_cr@, mx.del.grid_by_cr@, kx, c); lemma_mscaled_mval(by.del.grid_by_cr@, my.del.grid_by_cr@, ky, c);
+        assert(mval(by.del.grid_by_cr@, c) == ct * mval(bx.del.grid_by_cr@, c));
+        lemma_m2_field(kx, ky, ct, mval(bx.del.grid_by_cr@, c), mval(by.del.grid_by_cr@, c), q);
+    }
+    assert forall|c: Carrier| #[trigger] mval(my.used.epus_by_cr@, c) == q * mval(mx.used.epus_by_cr@, c) by {
+        lemma_mscaled_mval(bx.used.epus_by_cr@, mx.used.epus_by_cr@, kx, c); lemma_mscaled_mval(by.used.epus_by_cr@, my.used.epus_by_cr@, ky, c);
+        assert(mval(by.used.epus_by_cr@, c) == ct * mval(bx.used.epus_by_cr@, c));
+        lemma_m2_field(kx, ky, ct, mval(bx.used.epus_by_cr@, c), mval(by.used.epus_by_cr@, c), q);
+    }
+}
+pub proof fn lemma_m2_r3(kx: real, ky: real, ct: real, v: R3, v2: R3, q: real)
+    requires kx != 0real, v2 == r3s(ct, v), q == (ct * ky) / kx,
+    ensures r3k(ky, v2) == r3s(q, r3k(kx, v)),
+{
+    lemma_m2_field(kx, ky, ct, v.ren, v2.ren, q); lemma_m2_field(kx, ky, ct, v.nren, v2.nren, q); lemma_m2_field(kx, ky, ct, v.co2, v2.co2, q);
+}
+/// C11 (area): the same building evaluated with reference area c * area: absolute figures and the renewable ratios unchanged,
+/// every per-m2 figure divided by c
+pub proof fn thm_c11_area(comps: Components, w: Seq<Factor>, k_exp: f32, area: f32, area2: f32, lm: bool, r: Result<EnergyPerformance>, r2: Result<EnergyPerformance>, c: real)
+    requires comps_wf(comps.data@), vals_dom(comps.data@), c > 0real, rv(area) > 0real, rv(area2) == c * rv(area),
+             ep_post(comps, w, k_exp, area, lm, r), ep_post(comps, w, k_exp, area2, lm, r2), r is Ok, r2 is Ok,
+    ensures ep_rel(r->Ok_0, r2->Ok_0, idx_ident(nsteps(comps.data@) as int), 1real, 1real),
+            bal_rel(r->Ok_0.balance_m2, r2->Ok_0.balance_m2, 1real / c),
+{
+    thm_c10_repeatable(comps, w, k_exp, area, area2, lm, r, r2);
+    let kx = k_of(area); let ky = k_of(area2);
+    lemma_pos_mul(c, rv(area));
+    assert((1real * ky) / kx == 1real / c) by(nonlinear_arith) requires kx == 1real / rv(area), ky == 1real / (c * rv(area)), c > 0real, rv(area) > 0real;
+    thm_m2(r->Ok_0.balance, r2->Ok_0.balance, area, area2, r->Ok_0.balance_m2, r2->Ok_0.balance_m2, 1real, 1real / c);
+}
